@@ -74,8 +74,12 @@ def gen_plan(rng, family):
         main.append(["await_all"])
         main.append(["submit", "value"])
     elif family == "killshutdown":              # C06
+        plan["timeout"] = rng.choice([None, None, 0.05])
         for _ in range(n):
             main.append(["submit", rng.choice(["value", "forever", "forever", "long"])])
+        if rng.random() < 0.35:
+            # a forced shutdown of a pool that is already shutting down gracefully must still be forced
+            main.append(["shutdown", "nowait"])
         main.append(["shutdown", "kill"])
         plan["final"] = "await"
     elif family == "resize":                    # C10 C09
@@ -91,6 +95,41 @@ def gen_plan(rng, family):
             main.append(["resize", rng.choice([1, 2, 3])])
         if rng.random() < 0.3:
             plan["threads"].append([["resize", rng.choice([1, 2, 3])], ["submit", "value"]])
+    elif family == "reuse":                     # C09: histories of factory calls, breakages, shutdowns, from 1..3 threads
+        plan["reusable"] = True
+        plan["timeout"] = 10
+        plan["kill_budget"] = rng.choice([0, 0, 0, 1])
+
+        nthreads = rng.choice([1, 1, 1, 2, 3])
+        if nthreads > 1:
+            # racing callers: same kwargs, no forced replacement (a replacement legitimately shuts the instance down under the
+            # feet of the other callers), no kills
+            plan["kill_budget"] = 0
+
+        def get():
+            if nthreads > 1:
+                return ["get", rng.choice([1, 2, 2, 3, None]), 10, rng.choice(["auto", "auto", True]), False]
+            return ["get", rng.choice([1, 2, 2, 3, None]), rng.choice([10, 10, 20]), rng.choice(["auto", "auto", True, False]),
+                    rng.choice([False, False, True])]
+        for _ in range(rng.randint(2, 5)):
+            main.append(get())
+            r_ = rng.random() if nthreads == 1 else rng.random() * 0.5
+            if r_ < 0.5:
+                main.append(["submit", rng.choice(["value", "value", "long", "raise"])])
+            elif r_ < 0.65:
+                main.append(["break"])
+            elif r_ < 0.8:
+                main.append(["shutdown_cur", rng.choice([True, False])])
+            elif r_ < 0.9:
+                main.append(["await_all"])
+        for _ in range(nthreads - 1):
+            th = []
+            for _ in range(rng.randint(1, 3)):
+                th.append(get())
+                if rng.random() < 0.6:
+                    th.append(["submit", "value"])
+            plan["threads"].append(th)
+        plan["final"] = "await"
     elif family == "saturate":                  # C08 delivered
         plan["workers"] = rng.choice([1, 2, 3])
         plan["timeout"] = rng.choice([None, 0.05, 0.05])
@@ -155,7 +194,12 @@ def make_program(plan):
                 if op == "submit":
                     if env.notes.get("ex_gone"):
                         continue
-                    ex = get_ex(env)
+                    if plan["family"] == "reuse":
+                        ex = env.notes.get(("mine", tname))
+                        if ex is None:
+                            continue
+                    else:
+                        ex = get_ex(env)
                     f = submit(env, ex, act[1])
                     env.notes.setdefault("order", []).append((tname, "submit", act[1], f is not None))
                 elif op == "cancel":
@@ -179,6 +223,51 @@ def make_program(plan):
                     t_after = sum(1 for c in env.kern.choices if c[0] in ("timeout", "kill") and (len(c) < 3 or c[2] != "sleep"))
                     env.notes["last_resize"] = (act[1], sorted(ex._processes), ex._flags.broken is not None,
                                                 started and ex is prev, t_after - t_before)
+                elif op == "get":
+                    _, mw, tmo, reuse, kill = act
+                    re_ = S.re_
+                    with re_._executor_lock:
+                        prev = re_._executor
+                        kw_of = env.notes.setdefault("kw_of", {})
+                        rec = {"thread": tname, "args": {"max": mw, "kw": int(tmo), "reuse": reuse, "kill": kill}, "next": re_._next_executor_id,
+                               "pre": None if prev is None else {
+                                   "eid": prev.executor_id, "max": prev._max_workers, "broken": prev._flags.broken is not None,
+                                   "shutdown": bool(prev._flags.shutdown), "kw": kw_of.get(prev.executor_id)},
+                               "stored_kw": None if re_._executor_kwargs is None else int(re_._executor_kwargs["timeout"]),
+                               "cpu": re_.cpu_count()}
+                        prev_mgr = getattr(prev, "_executor_manager_thread", None) if prev is not None else None
+                        prev_procs = list(prev._processes.values()) if prev is not None else []
+                        env.notes.setdefault("gets", []).append(rec)
+                        try:
+                            ex = env.reusable(mw, timeout=tmo, reuse=reuse, kill_workers=kill)
+                        except ValueError as e:
+                            rec["error"] = str(e)[:80]
+                            continue
+                        env.notes[("mine", tname)] = ex
+                        if ex is not prev:
+                            kw_of[ex.executor_id] = int(tmo)
+                        rec["post"] = {"eid": ex.executor_id, "max": ex._max_workers, "broken": ex._flags.broken is not None,
+                                       "shutdown": bool(ex._flags.shutdown), "is_prev": ex is prev, "next": re_._next_executor_id,
+                                       "nprocs": len(ex._processes), "started": ex._executor_manager_thread is not None}
+                        if ex is not prev and prev is not None:
+                            a_ = getattr(prev_mgr, "_sim_actor", None)
+                            rec["post"]["prev_mgr_alive"] = bool(a_ is not None and a_.alive())
+                            rec["post"]["prev_workers_alive"] = [p.pid for p in prev_procs if p._st is not None and p._st.alive]
+                        if prev is not None:
+                            # the pool can break at any moment (the manager thread does not take the factory lock): remember
+                            # whether the flags the factory read may differ from the ones read just before the call
+                            rec["prev_broke_meanwhile"] = (prev._flags.broken is not None) != rec["pre"]["broken"]
+                        rec["faults"] = sum(1 for c in env.kern.choices if c[0] in ("timeout", "kill") and (len(c) < 3 or c[2] != "sleep"))
+                elif op == "break":
+                    ex = S.re_._executor
+                    if ex is not None and not ex._flags.shutdown and ex._flags.broken is None:
+                        f = submit(env, ex, "sysexit")
+                        if f is not None:
+                            env.await_([f])
+                elif op == "shutdown_cur":
+                    ex = S.re_._executor
+                    if ex is not None:
+                        ex.shutdown(wait=act[1])
                 elif op == "shutdown":
                     how = act[1]
                     env.notes["shutdown"] = how
@@ -307,6 +396,8 @@ def analyze(plan, r):
         ctx_bits.append("idle-timeout")
     if notes.get("shutdown"):
         ctx_bits.append("shutdown-" + notes["shutdown"])
+    if fam == "reuse" and any(a[0] == "get" and a[4] for th in plan["threads"] for a in th):
+        ctx_bits.append("forced")
     if plan["reusable"]:
         ctx_bits.append("reusable")
     ctx = "+".join(ctx_bits) or "plain"
@@ -321,6 +412,8 @@ def analyze(plan, r):
         hang_props.append("C07")
     if fam == "resize":
         hang_props += ["C10", "C09"]
+    if fam == "reuse":
+        hang_props += ["C09"]
     if kills or fatal_kinds:
         hang_props.append("C02")
     if fam == "killshutdown":
@@ -433,6 +526,35 @@ def analyze(plan, r):
         if (not broken and same_started and faults == 0 and worker_timeouts == 0 and len(pids) != want
                 and len(plan["threads"]) == 1):
             add(["C10", "C09"], "wrong-size", f"resize-wrong-size want[{want}] got[{len(pids)}] ctx[{ctx}]")
+    # 9b. the factory (C09)
+    if fam == "reuse":
+        last_id = -1
+        for gi, rec in enumerate(notes.get("gets", [])):
+            post, pre = rec.get("post"), rec.get("pre")
+            if post is None:
+                continue
+            if pre is not None and rec["stored_kw"] != pre["kw"]:
+                add(["C09"], "stored-kwargs-mismatch", f"factory-stored-kwargs-are-not-those-of-the-current-instance ctx[{ctx}]", str(rec))
+            if post["is_prev"]:
+                if pre is None or pre["broken"] or pre["shutdown"]:
+                    add(["C09"], "dead-pool-handed-out", f"factory-returned-dead-previous-instance ctx[{ctx}]", str(rec))
+            else:
+                if post["broken"] and not kills or post["shutdown"]:
+                    add(["C09"], "dead-pool-handed-out", f"factory-returned-dead-new-instance ctx[{ctx}]", str(rec))
+                if post["eid"] <= last_id or (pre is not None and post["eid"] <= pre["eid"]) or post["eid"] != rec["next"]:
+                    add(["C09"], "id-not-increasing", f"factory-id-not-increasing ctx[{ctx}]", str(rec))
+                if post.get("prev_mgr_alive") or post.get("prev_workers_alive"):
+                    add(["C09", "C06"], "previous-not-shut-down",
+                        f"factory-returned-before-previous-instance-was-down mgr[{post.get('prev_mgr_alive')}] ctx[{ctx}]", str(rec))
+            last_id = max(last_id, post["eid"])
+            want = rec["args"]["max"]
+            if want is not None and post["max"] != want:
+                add(["C09", "C10"], "wrong-size", f"factory-wrong-max_workers want[{want}] got[{post['max']}] ctx[{ctx}]", str(rec))
+        if ended and not kills and not fatal_kinds:
+            for tid, c in r.futures.items():
+                if isinstance(c, tuple) and c[0] in BROKEN + ("ShutdownExecutorError",) and r.kinds[tid] != "sysexit" \
+                        and not any(a[0] in ("break", "shutdown_cur") or (a[0] == "get" and a[4]) for th in plan["threads"] for a in th):
+                    add(["C09"], "task-lost", f"factory-task-failed got[{c[0]}] ctx[{ctx}]", f"task {tid}")
     # 10. parallelism (C08)
     mx = getattr(r, "max_registered", None)
     if mx is not None and mx[0] > mx[1]:
